@@ -18,7 +18,7 @@ Payloads == { <<"x", SQ, "]", " ", "=", " ", "_", "_", "v", "(", ")", " ", "#">>
 \* the alias positions are crossed with the emission paths of to_dict: the single dict literal ("alias"), the per-field
 \* kwargs[...] assignments (omit_none with a converted Optional field: "aliasopt"; omit_default: "aliasdflt") and the
 \* by_alias keyword of TO_DICT_ADD_BY_ALIAS_FLAG ("aliasflag": called as to_dict(by_alias=True))
-Positions == {"alias", "aalias", "cfgalias", "tdkey", "forbid", "literal", "enumvalue", "discrfield", "allowname", "aliasopt", "aliasdflt", "aliasflag", "discrcfg", "literalpair", "discrpair"}
+Positions == {"alias", "aalias", "cfgalias", "tdkey", "forbid", "literal", "enumvalue", "discrfield", "allowname", "aliasopt", "aliasdflt", "aliasflag", "discrcfg", "literalpair", "discrpair", "genlit"}
 
 \* ---- level 1: lexing theorems over all strings of length <= 4
 ReprSafe   == kind = "start" => \A x \in Strs(4) : Denotes(Repr(x), x)
@@ -46,6 +46,13 @@ SubC(str)  == <<"dc", "A", << <<"v", <<"int">>, <<"req">>, <<>> >> >>,
 \* a second hierarchy R2 / A2 discriminated by the SIBLING string: two discriminated positions with different field names in ONE class
 RootE == <<"dc", "R2", << <<"v", <<"int">>, <<"req">>, <<>> >> >>, <<>> >>
 SubE  == <<"dc", "A2", << <<"v", <<"int">>, <<"req">>, <<>> >> >>, << <<"bases", <<RootE>> >>, <<"classvars", << <<SibStr, S("a")>> >> >> >> >>
+\* LONG Literal strings (a common 85-character prefix, the schema-supplied string, one last character) as the type arguments of
+\* ONE generic dataclass inside one holder: each specialisation accepts and emits exactly its own string
+P85 == "xxxxxxxxxxxxxxxxxxxxxxxxxxxxxxxxxxxxxxxxxxxxxxxxxxxxxxxxxxxxxxxxxxxxxxxxxxxxxxxxxxxxx"
+LongA(str) == P85 \o str \o "1"
+LongB(str) == P85 \o str \o "2"
+GBoxL(x) == <<"dc", "Box", << <<"v", <<"literal", << S(x) >> >>, <<"req">>, <<>> >> >>,
+              << <<"mixin", "plain">>, <<"generic", << <<"T">>, << <<"literal", << S(x) >> >> >>, << <<"v", <<"tvar", "T">> >> >> >> >> >> >>
 F(t, dflt, opts) == <<"f", t, dflt, opts>>
 ClassAt(p, str) ==
   CASE p = "alias"    -> <<"dc", "K", << F(<<"int">>, <<"req">>, << <<"alias", str>> >>) >>, << <<"serialize_by_alias", TRUE>> >> >>
@@ -67,6 +74,7 @@ ClassAt(p, str) ==
                                              <<"g", <<"literal", << S(SibStr) >> >>, <<"req">>, <<>> >> >>, <<>> >>
     [] p = "enumvalue" -> <<"dc", "K", << F(<<"enum", "E", "Enum", << <<"M", S(str)>>, <<"N", S("other")>> >> >>, <<"req">>, <<>>) >>, <<>> >>
     [] p = "discrcfg" -> RootC(str)
+    [] p = "genlit" -> <<"dc", "K", << F(GBoxL(LongA(str)), <<"req">>, <<>>), <<"g", GBoxL(LongB(str)), <<"req">>, <<>> >> >>, <<>> >>
     [] p = "discrpair" -> <<"dc", "K", << F(<<"discr", RootD(str), << <<"field", str>>, <<"include_subtypes", TRUE>> >> >>, <<"req">>, <<>>),
                                            <<"g", <<"discr", RootE, << <<"field", SibStr>>, <<"include_subtypes", TRUE>> >> >>, <<"req">>, <<>> >> >>, <<>> >>
     [] p = "discrfield" -> <<"dc", "K", << F(<<"discr", RootD(str), << <<"field", str>>, <<"include_subtypes", TRUE>> >> >>, <<"req">>, <<>>) >>, <<>> >>
@@ -81,6 +89,7 @@ ValueAt(p, str) ==
     [] p = "enumvalue" -> <<"obj", "K", << <<"enum", "E", "M">> >> >>
     [] p = "discrfield" -> <<"obj", "K", << <<"obj", "A", <<I(0)>> >> >> >>
     [] p = "discrpair" -> <<"obj", "K", << <<"obj", "A", <<I(0)>> >>, <<"obj", "A2", <<I(5)>> >> >> >>
+    [] p = "genlit" -> <<"obj", "K", << <<"obj", "Box", <<S(LongA(str))>> >>, <<"obj", "Box", <<S(LongB(str))>> >> >> >>
     [] p = "discrcfg" -> <<"obj", "A", <<I(0)>> >>
 
 Init == s = <<>> /\ pos = "none" /\ kind = "start"
@@ -113,7 +122,8 @@ ExactlyTheString ==
       [] pos = "aliasopt" -> Wire = Dct(<< <<S(Str), S("2024-01-02")>> >>)
       [] pos = "tdkey" -> Wire = Dct(<< <<S("f"), Dct(<< <<S(Str), I(7)>> >>)>> >>)
       [] pos \in {"literal", "enumvalue"} -> Wire = Dct(<< <<S("f"), S(Str)>> >>)
-      [] pos = "discrpair" -> Dec = Ok(ValueAt(pos, Str))          \* each position dispatches on ITS OWN field name
+      [] pos = "discrpair" -> Dec = Ok(ValueAt(pos, Str))
+      [] pos = "genlit" -> Dec = Ok(ValueAt(pos, Str)) /\ Wire = Dct(<< <<S("f"), Dct(<< <<S("v"), S(LongA(Str))>> >>)>>, <<S("g"), Dct(<< <<S("v"), S(LongB(Str))>> >>)>> >>)          \* each position dispatches on ITS OWN field name
       [] pos = "literalpair" -> Wire = Dct(<< <<S("f"), S(Str)>>, <<S("g"), S(SibStr)>> >>) /\ Dec = Ok(ValueAt(pos, Str))
       [] OTHER -> TRUE
 
